@@ -35,10 +35,10 @@ def run(ctx):
     run.trusted_base = ["CPython ast / re._parser", "spec/rfc8785.json (hand transcription)", "CPython float repr (shortest round-trip digits)",
                         "CPython _json.encode_basestring when present (same escape table as the Python fallback)"]
     run.assumptions = ["input values are JSON values (str/None/bool/int/float/list/tuple/dict)"]
-    rule_encoder_siblings(ctx)
-    rule_key_order(ctx)
-    rule_escapes(ctx)
-    rule_number_constants(ctx)
+    ctx.do(rule_encoder_siblings)
+    ctx.do(rule_key_order)
+    ctx.do(rule_escapes)
+    ctx.do(rule_number_constants)
 
 
 def _value_table(stmts, var):
@@ -251,6 +251,38 @@ def rule_escapes(ctx, rule_id="C16.escapes"):
     run.check(ok and chars == wantc, R, key(m.relpath, "ESCAPE", "character-class"), "the set of characters that get escaped is not "
               "exactly C0 controls, quote and backslash (minimal escaping)", file=m.relpath, line=eb.lineno, function="<module>",
               expected="U+0000-U+001F, U+0022, U+005C", found=sorted(chars ^ wantc))
+    # which string encoder: the escaping-everything-non-ASCII variant exactly when ensure_ascii is set, at every place that
+    # chooses (top-level string shortcut of encode(), iterencode()); canonicalize() builds its encoder with ensure_ascii off
+    enc = prog.cls(CAN + "::JSONEncoder")
+    n_sel = 0
+    for fi_ in sorted(enc.methods.values(), key=lambda f: f.qualname):
+        for x in body_walk(fi_.node):
+            if not (isinstance(x, (ast.If, ast.IfExp)) and norm(x.test) in ("self.ensure_ascii", "ensure_ascii")):
+                continue
+            tb = x.body if isinstance(x.body, list) else [x.body]
+            fb = x.orelse if isinstance(x.orelse, list) else [x.orelse]
+            tnames = {n_.id for s_ in tb for n_ in ast.walk(s_) if isinstance(n_, ast.Name)}
+            fnames = {n_.id for s_ in fb for n_ in ast.walk(s_) if isinstance(n_, ast.Name)}
+            if not ({"encode_basestring", "encode_basestring_ascii"} & (tnames | fnames)):
+                continue
+            n_sel += 1
+            okp = "encode_basestring_ascii" in tnames and "encode_basestring_ascii" not in fnames \
+                and "encode_basestring" in fnames and "encode_basestring" not in tnames
+            run.check(okp, R, key(m.relpath, fi_.qualname, "encoder-by-ensure_ascii:%d" % n_sel),
+                      "the string encoder is chosen against the ensure_ascii switch: with ensure_ascii off (the canonical form) "
+                      "non-ASCII characters are written as \\uXXXX escapes here (non-minimal escaping), and only at this place",
+                      file=m.relpath, line=x.lineno, function=fi_.qualname,
+                      expected="encode_basestring_ascii if ensure_ascii else encode_basestring", found=short(x, 140))
+    if n_sel < 2:
+        raise AnalysisError("JSONEncoder: fewer than 2 places choosing the string encoder by ensure_ascii (%d)" % n_sel)
+    init = enc.methods.get("__init__")
+    can = prog.func(CAN + "::canonicalize")
+    mk = [c for c in body_walk(can.node) if isinstance(c, ast.Call) and call_simple_name(c) == "JSONEncoder"]
+    okd = init is not None and norm(init.defaults().get("ensure_ascii")) == "False" and len(mk) == 1 and not any(
+        k.arg == "ensure_ascii" and norm(k.value) != "False" for k in mk[0].keywords) and not any(k.arg is None for k in mk[0].keywords)
+    run.check(okd, R, key(m.relpath, can.qualname, "ensure_ascii-off"), "canonicalize() does not build its encoder with ensure_ascii "
+              "off: every non-ASCII character would be escaped", file=m.relpath, line=can.node.lineno, function=can.qualname,
+              expected="JSONEncoder(sort_keys=True) with ensure_ascii=False (default)", found=[short(c) for c in mk])
     # py_encode_basestring uses them; the C encoder is only a same-behaviour accelerator
     pe = prog.func(CAN + "::py_encode_basestring")
     t = norm(pe.node)
